@@ -169,14 +169,17 @@ fn display_all_exported_vars(
     // Enumerate variables, sorted by key.
     for (name, variable) in context.shell.env().iter().sorted_by_key(|v| v.0) {
         if variable.is_exported() {
+            // All of the variable's attributes are shown (`declare -rx`, `declare -ix`), so that
+            // reading the line back restores them.
+            let flags = variable.attribute_flags(context.shell);
             let value = variable.value().try_get_cow_str(context.shell);
             if let Some(value) = value {
                 // Quote the value the way `declare -p` does, so that the line can be read back.
                 let quoted =
                     brush_core::escape::force_quote(&value, brush_core::escape::QuoteMode::DoubleQuote);
-                writeln!(context.stdout(), "declare -x {name}={quoted}")?;
+                writeln!(context.stdout(), "declare -{flags} {name}={quoted}")?;
             } else {
-                writeln!(context.stdout(), "declare -x {name}")?;
+                writeln!(context.stdout(), "declare -{flags} {name}")?;
             }
         }
     }
